@@ -17,6 +17,7 @@
 (*  fund     {tx (payments only, unsigned), types[], in_total, rate,       *)
 (*            dust_rate, change_spk | "", outcome, fee, change, index,     *)
 (*            final (unsigned hex of what was built)}      build_psbt      *)
+(*  total    {ctx, values[], accepted}   Tx / Psbt v0 / v2 / build_psbt   *)
 (* Numbers are hex naturals (WN), byte strings hex (FromHex).              *)
 (***************************************************************************)
 EXTENDS Accounting, WireMore, EvBase
@@ -71,6 +72,9 @@ Check(e) ==
          /\ WN(e.in_total) = BAdd(Sum3(tx), WN(e.fee))
          /\ BGe(WN(e.fee), Fee(VSize(tx), WN(e.rate)))
     [] e.op = "fund" -> FundExpected(e) = FundLogged(e) /\ FundBuilt(e)
+    \* output amounts handed to a transaction, to a psbt of either version or to the builder: accepted exactly when each is in the money range and so is their sum
+    [] e.op = "total" -> LET vs == [j \in 1..Len(e.values) |-> WN(e.values[j])] IN
+         e.accepted = ((\A j \in 1..Len(vs) : BLe(vs[j], MaxMoney)) /\ BLe(FoldLeft(LAMBDA a, x : BAdd(a, x), BZero, vs), MaxMoney))
 EventOK == i > 0 => Check(Trace[i])
 Diag == i > 0 => PrintT(<<"DIAG", i, <<Trace[i].op,
                   CASE Trace[i].op = "fund" -> <<FundExpected(Trace[i]), FundLogged(Trace[i]), FundBuilt(Trace[i])>>
